@@ -11,6 +11,8 @@ structure Basic (env : Env) (R : World → World → Prop) : Prop where
   callDest : ∀ (w : World) (d : Nat) (m : Msg), R w (w.callDest env d m).1
   stagePush : ∀ (w : World) (m : Msg), R w { w with stage := w.stage ++ [m] }
   bufferSet : ∀ (w : World) (b : List Msg), R w { w with buffer := b }
+  /-- ghost bookkeeping of `deliver`: the pending slot is consumed (and recorded with the buffered message) -/
+  ghostSlot : ∀ (w : World) (l : Option (Nat × Nat)) (b : List (Msg × Option (Nat × Nat))), R w { w with lastSlot := l, bufferAt := b }
   clock : ∀ (w : World), R w w.clock.1
   nextLevel : ∀ (w : World) (h : Nat), R w (w.nextLevel h).1
   freshAction : ∀ (w : World) (t : String) (s : Option (List (String × Nat) × List (String × Nat))), R w (w.freshAction t s).1
@@ -195,8 +197,11 @@ end BasicD
 
 /-- the three configuration statements, from their basic steps -/
 structure BasicCfg (env : Env) (R : World → World → Prop) : Prop where
-  startDelivery : ∀ (w : World) (ds : List Nat), R w { w with anyAdded := true, dests := ds, buffer := [] }
-  extendDests : ∀ (w : World) (ds : List Nat), R w { w with dests := w.dests ++ ds }
+  startDelivery : ∀ (w : World) (ds : List Nat), 
+    R w { w with anyAdded := true, dests := ds, buffer := [], pendingAt := w.bufferAt, bufferAt := [], dupAdd := w.dupAdd || hasDup ds }
+  extendDests : ∀ (w : World) (ds : List Nat), R w { w with dests := w.dests ++ ds, dupAdd := w.dupAdd || hasDup (w.dests ++ ds) }
+  /-- ghost step of the re-delivery loop of the first `Destinations.add` -/
+  popPending : ∀ (w : World), R w w.popPending
   removeDest : ∀ (w : World) (d : Nat), R w { w with dests := w.dests.erase d }
   addGlobals : ∀ (w : World) (fs : Fields), R w { w with globals := w.globals.update fs }
 
@@ -205,11 +210,11 @@ theorem BasicD.primCfg {env : Env} {R : World → World → Prop} (hb : BasicD e
     unfold World.addDests
     split
     · exact hc.extendDests w ds
-    · have key : ∀ (buf : List Msg) (w1 : World), R w1 (buf.foldl (fun acc m => acc.send env m) w1) := by
+    · have key : ∀ (buf : List Msg) (w1 : World), R w1 (buf.foldl (fun acc m => acc.popPending.send env m) w1) := by
         intro buf
         induction buf with
         | nil => intro w1; exact hb.refl w1
-        | cons m ms ih => intro w1; exact hb.trans (hb.send w1 m) (ih _)
+        | cons m ms ih => intro w1; exact hb.trans (hb.trans (hc.popPending w1) (hb.send _ m)) (ih _)
       exact hb.trans (hc.startDelivery w ds) (key _ _)
   removeDest := hc.removeDest
   addGlobals := hc.addGlobals
@@ -227,8 +232,11 @@ theorem Basic.toD {env : Env} {R : World → World → Prop} (hb : Basic env R) 
     unfold World.deliver
     simp only
     split
-    · exact hb.trans (hb.stagePush w _) (fan _ _ _)
-    · exact hb.trans (hb.stagePush w _) (hb.bufferSet _ _)
+    · exact hb.trans (hb.trans (hb.stagePush w _) (fan _ _ _)) (hb.ghostSlot _ none _)
+    · -- (the trimmed lists are made opaque: comparing `_ - 1000` terms up to reduction is expensive)
+      generalize trim1000 _ = B
+      generalize trimAt _ = BA
+      exact hb.trans (hb.stagePush w (Fields.update m w.globals)) (hb.trans (hb.bufferSet _ B) (hb.ghostSlot _ none BA))
   clock := hb.clock
   nextLevel := hb.nextLevel
   freshAction := hb.freshAction
